@@ -168,6 +168,22 @@ func (s *Server) VerifShiftDiscard(inputLen, numKeep int32) int32 {
 	return s.cache.ShiftDiscard(inputLen, numKeep)
 }
 
+func VerifShiftDiscard07(numCtx, inputLen, numKeep int32) int32 {
+	c := &InputCache{numCtx: numCtx}
+	return c.ShiftDiscard(inputLen, numKeep)
+}
+
+func VerifCommonPrefix07(a, b []int32) int32 {
+	mk := func(l []int32) []input.Input {
+		out := make([]input.Input, 0, len(l))
+		for _, t := range l {
+			out = append(out, input.Input{Token: t})
+		}
+		return out
+	}
+	return countCommonPrefix(mk(a), mk(b))
+}
+
 // VerifPureCache builds an InputCache without a KV cache (cache == nil), as the package's own tests do,
 // for the pure slot-choice functions.
 func VerifPureCache(numCtx int32, multi bool, slots [][]int32, inUse []bool, age []int) *InputCache {
